@@ -3,6 +3,7 @@ package main
 import (
 	"encoding/json"
 	"fmt"
+	"sort"
 	"strconv"
 	"strings"
 
@@ -453,6 +454,16 @@ func mergeShape(r *Rng, cfg GenCfg, t *Val, depth int) *Val {
 	return p
 }
 
+// sortHunks orders the hunks of an encoded diff outcome canonically.
+func sortHunks(out string) string {
+	if !strings.HasPrefix(out, "ok <") {
+		return out
+	}
+	hs := splitHunks(out[3:])
+	sort.Strings(hs)
+	return "ok " + joinHunks(hs)
+}
+
 func addC12Case(run *Run, t, p *Val) {
 	tw := t.Wire()
 	ptext := ""
@@ -469,7 +480,7 @@ func addC12Case(run *Run, t, p *Val) {
 	c.Sig = tw + "|" + ptext
 	nd := numDict([]string{tw, p.Wire(), po}, []string{ptext})
 	c.Probes = append(c.Probes,
-		Probe{Kind: "corr", Rel: "ReadMergeString = readMergeM", Line: fmt.Sprintf("readmerge %s %s", nd, textWire(ptext)), Want: rd},
+		Probe{Kind: "corr", Rel: "ReadMergeString = readMergeM (as a set of hunks; their order is C15's)", Line: fmt.Sprintf("readmergesorted %s %s", nd, textWire(ptext)), Want: sortHunks(rd)},
 		Probe{Kind: "oracle", Rel: "C12 read + apply = MergePatch(target, patch) of RFC 7386", Line: fmt.Sprintf("c12 %s %s %s %s", nd, tw, textWire(ptext), po)},
 	)
 	if strings.HasPrefix(rd, "ok ") {
